@@ -48,6 +48,7 @@ fn main() {
         "c02" => props::sectors::run_c02(&cfg),
         "c02power" => props::power_ds::run(&cfg),
         "c02actor" => props::sectors_actor::run(&cfg),
+        "c06" | "c07" | "c08" => props::market::run(&cfg, prop.as_str()),
         _ => { eprintln!("unknown property {}", prop); std::process::exit(2); }
     };
     if let Some(dir) = std::path::Path::new(&cfg.out).parent() {
